@@ -111,16 +111,16 @@ theorem rootFlags_pruneGo : ∀ (hs : List H) {m m' : MapPollard H} {F : Forest 
     exact rootFlags_pruneGo hs inv1 hf1 hrf1 he
 
 /-- **`Prune` preserves the strong invariant**; exactly the named leaves leave the cache -/
-theorem sinv_prune (cr : CR H) {m : MapPollard H} {F : Forest H} (s : SInv m F) (hashes : List H) :
+theorem sinv_prune (nz : NZ H) {m : MapPollard H} {F : Forest H} (s : SInv m F) (hashes : List H) :
     ∃ m', MapPollard.prune hashes m = (m', .ok ()) ∧ SInv m' F ∧
       (∀ y, m'.hasCached y = true ↔ (m.hasCached y = true ∧ y ∉ hashes)) := by
-  have inv := s.inv cr
+  have inv := s.inv nz
   obtain ⟨m', e, inv', hf', hc', _⟩ := inv_pruneGo hashes inv s.full
   have hp : MapPollard.prune hashes m = (m', .ok ()) := by
     unfold MapPollard.prune
     rw [s.full]
     exact e
-  refine ⟨m', hp, SInv.of_inv cr inv' hf' s.hyg (rootFlags_pruneGo hashes inv s.full (s.rootFlags cr) e), ?_⟩
+  refine ⟨m', hp, SInv.of_inv nz inv' hf' s.hyg (rootFlags_pruneGo hashes inv s.full (s.rootFlags nz) e), ?_⟩
   intro y
   rw [hasCached_eq, hasCached_eq, hc']
   by_cases hy : y ∈ hashes
